@@ -58,7 +58,7 @@ PARAMS = OrderedDict(
     ]
 )
 # v2: second A-variable (capture cases); ("v", "B"): same NAME as ("v", "A") but another type
-VARS = [("v", "A"), ("vb", "B"), ("v2", "A"), ("v", "B")]
+VARS = [("v", "A"), ("vb", "B"), ("v2", "A"), ("v", "B"), ("v3", "A")]
 
 
 def _F(z):
